@@ -10,7 +10,7 @@ Theorems about `Dag.merge`, the model of `dag.merge` (one remote ref); `MergeAll
 namespace GitBugModel.Props.C02
 open GitBugModel.Dag
 
-variable (s : Store) (lh : Option String) (rh : String) (ce cc : Nat) (nh mp au : String)
+variable (s : Store) (rid : String) (lh : Option String) (rh : String) (ce cc : Nat) (nh mp au : String)
 
 theorem maxOf_ge (l : List Nat) : ∀ x ∈ l, x ≤ maxOf l := by
   unfold maxOf
@@ -93,10 +93,29 @@ theorem mergeExisting_fastforward (hne : l ≠ rh) (h3 : rh ∉ reach s l) (h4 :
   unfold mergeExisting
   simp [hne, h3, h4]
 
-theorem mergeExisting_diverged (hne : l ≠ rh) (h3 : rh ∉ reach s l) (h4 : l ∉ reach s rh) :
+theorem mergeExisting_diverged (hne : l ≠ rh) (h3 : rh ∉ reach s l) (h4 : l ∉ reach s rh)
+    (hrel : ∃ x, x ∈ reach s l ∧ x ∈ reach s rh) :
     mergeExisting s re l rh ce cc nh mp au = mergeDiverged s l rh ce cc nh mp au := by
   unfold mergeExisting
-  simp [hne, h3, h4]
+  obtain ⟨x, hx1, hx2⟩ := hrel
+  have hnot : ¬ ∀ y, y ∈ reach s l → ¬ y ∈ reach s rh := fun hall => hall x hx1 hx2
+  simp [hne, h3, h4, hnot]
+
+/-- a remote history that shares no commit with the local one is refused; the local entity is
+left alone (joining them would give an entity with two roots) -/
+theorem mergeExisting_unrelated (hne : l ≠ rh) (h3 : rh ∉ reach s l) (h4 : l ∉ reach s rh)
+    (hun : ∀ x ∈ reach s l, x ∉ reach s rh) :
+    (mergeExisting s re l rh ce cc nh mp au).status = .invalid ∧
+    (mergeExisting s re l rh ce cc nh mp au).localHead = some l ∧
+    (mergeExisting s re l rh ce cc nh mp au).mergeCommit = none := by
+  unfold mergeExisting
+  have hany : (reach s l).any (fun h => (reach s rh).contains h) = false := by
+    rw [List.any_eq_false]; intro x hx; simpa using hun x hx
+  have h1 : (l == rh) = false := by simpa using hne
+  have h2 : (reach s l).contains rh = false := by simpa using h3
+  have h5 : (reach s rh).contains l = false := by simpa using h4
+  rw [h1, h2, h5, hany]
+  simp
 
 /-- `merge_status_sound`: `nothing` is reported exactly when the local head is the remote head or
 already contains it (for a valid remote and an existing local entity). -/
@@ -112,50 +131,84 @@ theorem mergeExisting_nothing_iff (hl : ∃ le, Dag.read s l = .ok le) :
         by_cases h4 : l ∈ reach s rh
         · have := (mergeExisting_fastforward s rh ce cc nh mp au re l heq h3 h4).1
           rw [this] at h; cases h
-        · rw [mergeExisting_diverged s rh ce cc nh mp au re l heq h3 h4] at h
-          obtain ⟨le, hle⟩ := hl
-          obtain ⟨e, _, _, _, _, _, hst, _⟩ := mergeDiverged_spec s rh ce cc nh mp au l le hle
-          rw [h] at hst
-          cases hst with
-          | inl h1 => cases h1
-          | inr h1 => cases h1
+        · by_cases hrel : ∃ x, x ∈ reach s l ∧ x ∈ reach s rh
+          · rw [mergeExisting_diverged s rh ce cc nh mp au re l heq h3 h4 hrel] at h
+            obtain ⟨le, hle⟩ := hl
+            obtain ⟨e, _, _, _, _, _, hst, _⟩ := mergeDiverged_spec s rh ce cc nh mp au l le hle
+            rw [h] at hst
+            cases hst with
+            | inl h1 => cases h1
+            | inr h1 => cases h1
+          · have hun : ∀ x ∈ reach s l, x ∉ reach s rh := fun x hx hx2 => hrel ⟨x, hx, hx2⟩
+            have := (mergeExisting_unrelated s rh ce cc nh mp au re l heq h3 h4 hun).1
+            rw [this] at h; cases h
   · intro h; exact (mergeExisting_nothing s rh ce cc nh mp au re l h).1
+
+theorem mergeExisting_clock_monotone : ce ≤ (mergeExisting s re l rh ce cc nh mp au).clockEdit := by
+  unfold mergeExisting
+  split
+  · simp
+  · split
+    · simp
+    · split
+      · simp
+      · split
+        · simp
+        · unfold mergeDiverged
+          split
+          · simp
+          · simp only; split <;> (simp; omega)
 
 /-! ## the whole merge -/
 
 /-- `invalid_is_inert`: an unreadable or invalid remote version is reported invalid, the local
 ref is left exactly as it was and no merge commit is written. -/
 theorem merge_unreadable_remote (e : Err) (h : Dag.read s rh = .error e) :
-    (merge s lh rh ce cc nh mp au).status = .invalid ∧ (merge s lh rh ce cc nh mp au).localHead = lh ∧
-    (merge s lh rh ce cc nh mp au).mergeCommit = none := by
+    (merge s rid lh rh ce cc nh mp au).status = .invalid ∧ (merge s rid lh rh ce cc nh mp au).localHead = lh ∧
+    (merge s rid lh rh ce cc nh mp au).mergeCommit = none := by
   unfold merge; simp [h]
 
 theorem merge_invalid_entity (h : Dag.read s rh = .ok re) (hv : entityValid re.ops = false) :
-    (merge s lh rh ce cc nh mp au).status = .invalid ∧ (merge s lh rh ce cc nh mp au).localHead = lh ∧
-    (merge s lh rh ce cc nh mp au).mergeCommit = none := by
+    (merge s rid lh rh ce cc nh mp au).status = .invalid ∧ (merge s rid lh rh ce cc nh mp au).localHead = lh ∧
+    (merge s rid lh rh ce cc nh mp au).mergeCommit = none := by
   unfold merge; simp [h, hv]
 
 /-- `merge_new`: a valid remote entity that does not exist locally is created at the remote
 head, reported new, and the entity handed back is the one read at that head. -/
-theorem merge_new (h : Dag.read s rh = .ok re) (hv : entityValid re.ops = true) :
-    (merge s none rh ce cc nh mp au).status = .new ∧
-    (merge s none rh ce cc nh mp au).localHead = some rh ∧
-    (merge s none rh ce cc nh mp au).entityOps = re.ops := by
-  unfold merge; simp [h, hv]
+theorem merge_new (h : Dag.read s rh = .ok re) (hv : entityValid re.ops = true)
+    (hid : re.ops.head?.map (·.id) = some rid) :
+    (merge s rid none rh ce cc nh mp au).status = .new ∧
+    (merge s rid none rh ce cc nh mp au).localHead = some rh ∧
+    (merge s rid none rh ce cc nh mp au).entityOps = re.ops := by
+  unfold merge; simp [h, hv, hid]
+
+/-- `ref_id_mismatch_rejected`: a remote ref whose name is not the id of the entity found there
+(the id of its first operation) is reported invalid and nothing local changes -/
+theorem merge_ref_id_mismatch (h : Dag.read s rh = .ok re) (hid : re.ops.head?.map (·.id) ≠ some rid) :
+    (merge s rid lh rh ce cc nh mp au).status = .invalid ∧ (merge s rid lh rh ce cc nh mp au).localHead = lh ∧
+    (merge s rid lh rh ce cc nh mp au).mergeCommit = none := by
+  unfold merge
+  by_cases hv : entityValid re.ops = true
+  · simp [h, hv, hid]
+  · have : entityValid re.ops = false := by simpa using hv
+    simp [h, this]
 
 /-- with a valid remote and an existing local entity, `merge` is `mergeExisting` after the
 remote's clocks have been witnessed -/
-theorem merge_existing (h : Dag.read s rh = .ok re) (hv : entityValid re.ops = true) :
-    merge s (some l) rh ce cc nh mp au =
+theorem merge_existing (h : Dag.read s rh = .ok re) (hv : entityValid re.ops = true)
+    (hid : re.ops.head?.map (·.id) = some rid) :
+    merge s rid (some l) rh ce cc nh mp au =
       mergeExisting s re l rh (max ce (maxOf (re.packs.map (·.edit)))) (max cc (maxOf (re.packs.map (·.create)))) nh mp au := by
-  unfold merge; simp [h, hv]
+  unfold merge; simp [h, hv, hid]
 
 /-- In scenario 5 the merge commit's edit time also exceeds every edit time of the remote side. -/
 theorem merge_commit_dominates_remote (h : Dag.read s rh = .ok re) (hv : entityValid re.ops = true)
-    (hne : l ≠ rh) (h3 : rh ∉ reach s l) (h4 : l ∉ reach s rh) (le : Entity) (hl : Dag.read s l = .ok le) :
-    ∃ e, (merge s (some l) rh ce cc nh mp au).mergeCommit = some ([l, rh], e) ∧
+    (hid : re.ops.head?.map (·.id) = some rid)
+    (hne : l ≠ rh) (h3 : rh ∉ reach s l) (h4 : l ∉ reach s rh) (hrel : ∃ x, x ∈ reach s l ∧ x ∈ reach s rh)
+    (le : Entity) (hl : Dag.read s l = .ok le) :
+    ∃ e, (merge s rid (some l) rh ce cc nh mp au).mergeCommit = some ([l, rh], e) ∧
       (∀ p ∈ re.packs, p.edit < e) ∧ (∀ p ∈ le.packs, p.edit < e) ∧ ce < e := by
-  rw [merge_existing s rh ce cc nh mp au re l h hv, mergeExisting_diverged _ _ _ _ _ _ _ _ _ hne h3 h4]
+  rw [merge_existing s rid rh ce cc nh mp au re l h hv hid, mergeExisting_diverged _ _ _ _ _ _ _ _ _ hne h3 h4 hrel]
   obtain ⟨e, h1, h2, h5, _⟩ := mergeDiverged_spec s rh (max ce (maxOf (re.packs.map (·.edit))))
     (max cc (maxOf (re.packs.map (·.create)))) nh mp au l le hl
   refine ⟨e, h5, ?_, h2, by omega⟩
@@ -165,8 +218,8 @@ theorem merge_commit_dominates_remote (h : Dag.read s rh = .ok re) (hv : entityV
 
 /-- the local ref only ever becomes: itself, the remote head, or the merge commit -/
 theorem merge_frame :
-    (merge s lh rh ce cc nh mp au).localHead = lh ∨ (merge s lh rh ce cc nh mp au).localHead = some rh ∨
-    (merge s lh rh ce cc nh mp au).localHead = some nh := by
+    (merge s rid lh rh ce cc nh mp au).localHead = lh ∨ (merge s rid lh rh ce cc nh mp au).localHead = some rh ∨
+    (merge s rid lh rh ce cc nh mp au).localHead = some nh := by
   unfold merge
   split
   · simp
@@ -175,20 +228,24 @@ theorem merge_frame :
     · simp
     · split
       · simp
-      · unfold mergeExisting
-        split
+      · split
         · simp
-        · split
+        · unfold mergeExisting
+          split
           · simp
           · split
             · simp
-            · unfold mergeDiverged
-              split
+            · split
               · simp
-              · simp only; split <;> simp
+              · split
+                · simp
+                · unfold mergeDiverged
+                  split
+                  · simp
+                  · simp only; split <;> simp
 
 /-- clocks never decrease through a merge -/
-theorem merge_clock_monotone : ce ≤ (merge s lh rh ce cc nh mp au).clockEdit := by
+theorem merge_clock_monotone : ce ≤ (merge s rid lh rh ce cc nh mp au).clockEdit := by
   unfold merge
   split
   · simp
@@ -197,22 +254,26 @@ theorem merge_clock_monotone : ce ≤ (merge s lh rh ce cc nh mp au).clockEdit :
     · simp; omega
     · split
       · simp; omega
-      · unfold mergeExisting
-        split
+      · split
         · simp; omega
-        · split
+        · unfold mergeExisting
+          split
           · simp; omega
           · split
             · simp; omega
-            · unfold mergeDiverged
-              split
+            · split
               · simp; omega
-              · simp only; split <;> (simp; omega)
+              · split
+                · simp; omega
+                · unfold mergeDiverged
+                  split
+                  · simp; omega
+                  · simp only; split <;> (simp; omega)
 
 /-! ## regenerated obligation: the scenario tests of `dag.merge` in the source -/
 
 theorem gen_merge_comparisons :
-    GitBugModel.Gen.Dag.mergeComparisons = some ["localCommit == remoteCommit", "hash == remoteCommit", "hash == localCommit"] := by
+    GitBugModel.Gen.Dag.mergeComparisons = some ["remoteEntity.Id() != id", "localCommit == remoteCommit", "hash == remoteCommit", "hash == localCommit"] := by
   decide
 
 /-! ## non-vacuity: a diverged pair (1 local commit vs 2 remote commits since the fork) -/
@@ -225,10 +286,11 @@ private def demo : Store := [
   { hash := "B1", parents := ["R"], pack := pk "pb1" [("b1", 3)] 0 2 },
   { hash := "B2", parents := ["B1"], pack := pk "pb2" [("b2", 3)] 0 3 }]
 
-example : (let m := merge demo (some "A1") "B2" 2 1 "M" "pm" "a"
+example : (let m := merge demo "create" (some "A1") "B2" 2 1 "M" "pm" "a"
     (m.status == .updated, m.localHead, m.mergeCommit, m.entityOps.map (·.id), m.clockEdit))
     = (true, some "M", some (["A1", "B2"], 4), ["create", "a1", "b1", "b2"], 4) := by decide
-example : (merge demo (some "B2") "B1" 3 1 "M" "pm" "a").status = .nothing := by decide
-example : (merge demo (some "B1") "B2" 3 1 "M" "pm" "a").localHead = some "B2" := by decide
+example : (merge demo "create" (some "B2") "B1" 3 1 "M" "pm" "a").status = .nothing := by decide
+example : (merge demo "create" (some "B1") "B2" 3 1 "M" "pm" "a").localHead = some "B2" := by decide
+example : (merge demo "other-id" (some "B1") "B2" 3 1 "M" "pm" "a").status = .invalid := by decide
 
 end GitBugModel.Props.C02
